@@ -16,6 +16,18 @@ CLAIMS = {
    text="Static decision of the ownership-escape discipline: (R1) the inventory of unsafe ownership operations in diplomat-runtime equals a triaged table; (R2) path-sensitive typestate on MIR: after ManuallyDrop::take / ptr::read / Box::from_raw / Vec::from_raw_parts on part of a value whose drop glue releases that part, the value is not dropped on any continuing path (this found the double drop in From<DiplomatResult> for Result, repaired by a fix: commit); (R2b) Drop for DiplomatResult releases exactly the flagged arm once per path; (R3) create/destroy, into_raw/from_raw and callback-destructor pairing; (R4) in the macro output for the repo's own bridges the generated *_destroy(Box<T>){} is the only by-value consumer of an opaque; (R5) C++ operator delete / unique_ptr / heap-moved callbacks with c_delete. Decides these clauses, not arbitrary foreign call histories.",
    note="Foreign callers are assumed to call destroy once; corpus rules (R4) speak for the bridge shapes present in feature_tests/example; C++ text is token-checked, not type-resolved.",
    technique="who-may-call inventory + MIR typestate (take-then-drop reachability) + pairing rules"),
+ "C01": dict(
+   text="Static decision of the ABI-agreement clauses that are visible in the code's shape: (R1) the C primitive table, extracted as a decision table from the resolved program and compared cell by cell with rustc's own layouts, exhaustively over the 17 primitives; (R2) agreement of the derived-type name table with the MAKE_SLICES_AND_OPTIONS instantiations of capi.h (macro-expanded and parsed); (R3) field-kind sequences of the C mirrors vs the repr(C) runtime carriers and the per-method result record; (R4) argument order self->params->write in macro and C generator; (R5) on the repo's own bridges, every generated extern fn calls the user method exactly once on every MIR path, routes each parameter only into its own position and returns the call's result through the allowed conversions; bridge value types are repr(C); (R6) receiver passing mode agreement between gate, macro and C backend (found the enum `&self` mismatch, repaired by a fix: commit). Decides these clauses for all inputs; does not decide bit-for-bit value delivery.",
+   note="rustc's extern \"C\" ABI lowering is trusted once both declarations agree; spec/foreign_types.json holds the C type facts; R5 is a corpus rule over feature_tests/example.",
+   technique="decision-table extraction + rustc layout oracle + C declaration parsing + MIR path/flow rules"),
+ "C11": dict(
+   text="Static decision that (R1) every enum emitter prints the stored discriminant inside its variant loop (template token rules, positional shortcuts only under the contiguity flag, JS reads discriminants as signed i32), (R2) the three contiguity predicates are `all(|(i,v)| i as isize == v.discriminant)`, (R3) discriminant inference in ast::Enum::new is `explicit literal or previous+1, previous starts at -1, previous := value for every variant`, (R4) AST->HIR copies the value unchanged. Together these are necessary conditions for every binding to carry rustc's discriminants; agreement with rustc's own numbering rule is by the documented rule, not by running rustc on all enums.",
+   note="Non-literal discriminant expressions are out of scope (the tool panics on them). Templates are token-checked.",
+   technique="typed HIR tree pattern rules + template linter"),
+ "C17": dict(
+   text="Static decision of the configuration precedence: statement-order rules in main and gen (default -> read_file -> read_cli_settings -> #[diplomat::config] scan -> get_overridden -> consumers, nothing set afterwards, consumers use the overridden value), last-write-wins totality of every leaf setter arm (every path stores the incoming value into the field named by the key; only a type check of the value may skip; current state never consulted), routing of language prefixes and the override filter, alias targets reach their overrides (found py-nanobind, repaired by a fix: commit), snake-casing of every key part that reaches set. Exhaustive over the finite set of keys and sources because it is a property of the program text, not of particular assignments.",
+   note="toml/heck/clap are trusted; the serde Deserialize path of Config is unused by main and not analysed.",
+   technique="HIR statement-order and path-totality rules over setters"),
 }
 NOT_YET = "rule module not built yet in this round (see DESIGN.md section 4 for the planned static rules)"
 
